@@ -259,6 +259,8 @@ type helper struct {
 	f       *Func
 	defers  []*ast.DeferStmt
 	results int
+	// complexDefer: the helper has a defer that is conditional, takes arguments or defers a closure
+	complexDefer bool
 }
 
 func isPureExpr(info *types.Info, e ast.Expr) bool {
@@ -380,7 +382,8 @@ func (nz *normalizer) candidate(fn *types.Func) (res *helper) {
 			call := x.Call
 			sel, isSel := ast.Unparen(call.Fun).(*ast.SelectorExpr)
 			if !top[x] || len(call.Args) != 0 || !isSel || !isPureExpr(info, sel.X) {
-				ok = false
+				// only a tail call (`return H(..)`) can take this helper: there the defers stay defers
+				h.complexDefer = true
 			} else {
 				h.defers = append(h.defers, x)
 			}
@@ -1188,6 +1191,9 @@ func isTerminating(b *ast.BlockStmt) bool {
 // inlineSite builds the replacement text for the statement(s) of cs.
 func (fc *fileCtx) inlineSite(cs *callSite) (string, bool) {
 	h := cs.h
+	if h.complexDefer {
+		return "", false
+	}
 	pl := fc.plan(h, cs.call, cs.at)
 	if pl == nil {
 		return "", false
@@ -1512,6 +1518,7 @@ func (fc *fileCtx) inlineTail(h *helper, call *ast.CallExpr, ftype *ast.FuncType
 
 // inlineDefer: `defer H(args)`; arguments are evaluated now, the body runs at exit.
 func (fc *fileCtx) inlineDefer(h *helper, call *ast.CallExpr) (string, bool) {
+	// (a deferred literal may itself defer: its defers run when it returns, as the helper's did)
 	pl := fc.plan(h, call, call.Pos())
 	if pl == nil {
 		return "", false
